@@ -88,7 +88,7 @@ def theorem_applicability(work, cases, shared=None, tag='mdlx'):
     return out
 
 CERT_HYPOTHESES = ['the file is the spec encoding of its parts (byte for byte)', 'header fields within the format', 'data-start word 16 bit', 'parameter block address 2..255',
-                   'gap of address-2 blocks', 'section = prologue + records + end marker + padding fills its blocks', 'block count and processor byte', 'prologue (1,80) or zeroed',
+                   'gap of address-2 blocks', 'section = prologue + chain (either ending) + padding fills its blocks', 'block count and processor byte', 'prologue (1,80) or zeroed',
                    'every record well formed (ids 1..127, capacity limits, exact offsets)', 'file below 2^31 bytes', 'header agrees with the parameters',
                    'header frame count = frames in the file, within the loop bound', 'data present => float format', 'every frame of the announced shape']
 def layout_certificates(work, names, shared, tag='cert'):
@@ -107,7 +107,7 @@ def failing_cert_hypotheses(certs):
     out = {}
     for n, (ok, bits) in certs.items():
         if ok: continue
-        if not bits: out['not cut into parts (other termination, load refused)'] = out.get('not cut into parts (other termination, load refused)', 0) + 1
+        if not bits: out['not cut into parts (load refused)'] = out.get('not cut into parts (load refused)', 0) + 1
         for k, b in enumerate(bits):
             if b == '0': out[CERT_HYPOTHESES[k]] = out.get(CERT_HYPOTHESES[k], 0) + 1
     return out
